@@ -4,7 +4,7 @@ import json
 import subprocess
 
 fixes = subprocess.run(["git", "-C", "/repo", "log", "--format=%h %s"], capture_output=True, text=True).stdout.strip().split("\n")
-hook_commits = [l.split()[0] for l in fixes if l.split(" ", 1)[1].startswith("verif:")]
+hook_commits = [l.split()[0] for l in fixes if l.split(" ", 1)[1].startswith("verif:")][::-1]
 
 T = {
  "C01": ("exploration", "adaptive API histories + save/load under ASan; snapshot-equality monitor", "§4 C01",
